@@ -2,7 +2,7 @@ import gfapy
 import re
 
 def unsafe_decode(string):
-  return [ gfapy.OrientedLine(str(l[0:-1]), str(l[-1]))
+  return [ gfapy.OrientedLine(str(l[0:-1]), str(l[-1:]))
            for l in string.split(",")]
 
 def decode(string):
